@@ -200,6 +200,13 @@ def run_real(cfg, ins, plan, make_batcher=None):
                 out.append(('act', now(), b, 0))
                 out.append(('batchend', now(), b))
                 raise StopIteration(act0[1])
+            if plan.get('wrapiter') and b % 2:
+                # any async iterable will do as the batch function's result: here an object whose `__aiter__` is the
+                # generator doing the work (it has no `aclose` of its own)
+                class Rows:
+                    def __aiter__(self, batch=batch, b=b, script=script):
+                        return agen(batch, b, script)
+                return Rows()
             return agen(batch, b, script)
 
         async def agen(batch, b, script):
@@ -317,6 +324,7 @@ def gen_cleanup(rng):
     ins = [i for i in ins if i[0] != 'm']
     plan['per'] = [[rng.choice([0, 0, 3, 4, 5]) for _ in range(6)] for _ in range(12)]
     plan['cleanup'] = rng.choice([16, 48, 160])
+    plan['wrapiter'] = rng.random() < 0.5
     plan['idelay'] = rng.choice([0, 16, 48])
     cfg['maxc'] = rng.choice([1, 1, 2])
     return cfg, ins, plan
